@@ -268,7 +268,7 @@ func (e *kvElection) attemptAcquireWithRetry(ctx context.Context) {
 		e.recordAcquireAttempt("failed")
 		e.recordFailure(classifyErrorType(err))
 
-		verifYield("acquire.retrycheck")
+		e.verifYield("acquire.retrycheck")
 		if retry == maxRetries {
 			log.Warn("acquire_failed_max_retries",
 				append(e.logWithContext(ctx),
@@ -350,7 +350,7 @@ func (e *kvElection) attemptAcquire() error {
 		)...,
 	)
 
-	verifYield("acquire.created")
+	e.verifYield("acquire.created")
 	e.recordAcquireAttempt("success")
 	e.becomeLeader(token, rev)
 	return nil
@@ -453,7 +453,7 @@ func (e *kvElection) attemptPriorityTakeover(payloadBytes []byte) error {
 		return fmt.Errorf("current leader has equal or higher priority: %d >= %d", currentPayload.Priority, e.cfg.Priority)
 	}
 
-	verifYield("takeover.read")
+	e.verifYield("takeover.read")
 	newRev, err := e.kv.Update(e.key, payloadBytes, entry.Revision())
 	if err != nil {
 		// Update failed - revision mismatch means someone else changed it
@@ -479,7 +479,7 @@ func (e *kvElection) attemptPriorityTakeover(payloadBytes []byte) error {
 		return fmt.Errorf("failed to unmarshal payload after takeover: %w", err)
 	}
 
-	verifYield("takeover.updated")
+	e.verifYield("takeover.updated")
 	e.revision.Store(newRev)
 	e.token.Store(newPayloadStruct.Token)
 	e.becomeLeader(newPayloadStruct.Token, newRev)
@@ -695,7 +695,7 @@ func (e *kvElection) StopWithContext(ctx context.Context, opts StopOptions) erro
 		)...,
 	)
 
-	verifYield("stop.beforedelete")
+	e.verifYield("stop.beforedelete")
 	if opts.DeleteKey && wasLeader {
 		if err := e.kv.Delete(e.key); err != nil {
 			log := e.getLogger()
@@ -1025,7 +1025,7 @@ func (e *kvElection) ValidateToken(ctx context.Context) (bool, error) {
 // Use this for operations that must not proceed with an invalid token.
 func (e *kvElection) ValidateTokenOrDemote(ctx context.Context) bool {
 	isValid, err := e.ValidateToken(ctx)
-	verifYield("validateordemote.verdict")
+	e.verifYield("validateordemote.verdict")
 	if err != nil || !isValid {
 		if e.IsLeader() {
 			e.handleValidationFailure(err)
